@@ -13,6 +13,7 @@ CONSTANTS
   Signers = {"relayer", "outsider"}
   Funds = 1000
   Fees = {0}
+  WithRotate = FALSE
   SendFrom <- AllSendFrom
 INVARIANTS TypeOK Conservation Exclusive WrappedBacked MarksExact ReceivedWasSent SeqAgree NoGap CommitIsSent OneAckPerReceipt StatusMatchesAck FeesHeld
 PROPERTIES AckStable ReceiptStable StatusOnce CommitRemovedOnlyByAck RejectChangesNothing
